@@ -67,19 +67,20 @@ func c09Exec(c *mon.Case) {
 		for i := range css {
 			ns, nq := []rune(css[i].Cfg.Seps), []rune(css[i].Cfg.Quotes)
 			if p := mon.Try(func() {
-				t.SetQuoteSymbols([]rune{0x7f})
-				if len(ns) == len(seps) {
-					copy(seps, ns) // edit the caller's buffer in place and hand it over again
-				} else {
-					seps = ns
-				}
-				t.SetFieldSeparators(seps)
+				// quotes first, separators last: no configuration call follows that could rebuild the
+				// states behind a separator call that did nothing
 				if len(nq) == len(quotes) {
-					copy(quotes, nq)
+					copy(quotes, nq) // edit the caller's buffer in place and hand it over again
 				} else {
 					quotes = nq
 				}
 				t.SetQuoteSymbols(quotes)
+				if len(ns) == len(seps) {
+					copy(seps, ns)
+				} else {
+					seps = ns
+				}
+				t.SetFieldSeparators(seps)
 			}); p != nil {
 				c.FailPanic("CSV tokenizer reconfiguration", p)
 				return
